@@ -278,9 +278,10 @@ template<class A> struct Drv : IDrv
     if(ser < 0) sprintf(buf, "-1.0"); else sprintf(buf, "%ld.%ld", ser, (off - (long)sizeof(void*)) / A::stride());
   }
 
+  int looped;
   void collect()
   {
-    nseen = 0;
+    nseen = 0; looped = 0;
     for(int s = 0; s < 2; ++s) {
       C& c = *cont[s];
       long guard = 0;
@@ -288,7 +289,7 @@ template<class A> struct Drv : IDrv
         if(nseen == capseen) { capseen = capseen ? capseen * 2 : 64; seen = (Seen*)realloc(seen, capseen * sizeof(Seen)); }
         Seen& e = seen[nseen++];
         e.it = i; e.addr = A::addr(i); e.id = e.addr->id; e.key = A::key(i); e.val = A::val(i); e.side = s;
-        if(++guard > 100000) break;
+        if(++guard > 4096) { looped = 1; break; }
       }
     }
   }
@@ -308,9 +309,10 @@ template<class A> struct Drv : IDrv
     C& c = *cont[s];
     printf("f=");
     int first = 1; long guard = 0;
-    for(typename C::Item* i = c.freeItem; i && guard < 100000; i = i->prev, ++guard) {
+    for(typename C::Item* i = c.freeItem; i && guard < 256; i = i->prev, ++guard) {
       char b[64]; slot_str(i, b); printf(first ? "%s" : ",%s", b); first = 0;
     }
+    if(guard >= 256) printf(",LOOP");
     if(first) printf("-");
     printf(" b=");
     first = 1;
@@ -375,6 +377,7 @@ template<class A> struct Drv : IDrv
       }
     }
 
+    if(looped) { printf("%ld ?iteration-does-not-end\n", cs); return; }
     printf("%ld n=%lu stale=%ld findbad=%ld | A=", cs, (unsigned long)cont[cur]->size(), stale, findbad);
     print_side(0); printf(" B="); print_side(1);
     printf(" | ev=");
